@@ -567,6 +567,7 @@ pub fn generate(rng: &mut Rng, tier: Tier, cases: &mut Vec<Case>) {
     bounded_cases(rng, n_bounded, cases);
     // (viii) the same solver object run again (run / run_with_upper_bound): reported value and cut stay
     rerun_cases(rng, n_bounded / 2, cases);
+    bounded_rerun_cases(rng, n_bounded / 2, cases);
     // (ix) high-degree nodes
     hub_cases(rng, match tier { Tier::Quick => 72, Tier::Thorough => 900 }, cases);
 }
@@ -659,6 +660,41 @@ fn rerun_cases(rng: &mut Rng, count: usize, cases: &mut Vec<Case>) {
         }
         let mut c = case_from("rerun", s, t, &es);
         c.ops.insert(1, format!("rr {}", 1 + rng.below(3)));
+        cases.push(c);
+    }
+}
+
+/// a bounded run (bound below, at or above the true flow) followed by `rr` further runs of the same object: the
+/// first is `run()` under the stored bound, the second `run_with_upper_bound(i32::MAX)`, ... - an aborted object
+/// that is later completed must report the maximum flow (seeded change C02-r4m2: the abort stored the flow
+/// counter without the phase it had just pushed)
+fn bounded_rerun_cases(rng: &mut Rng, count: usize, cases: &mut Vec<Case>) {
+    let mut c = bounded_case("bounded-rerun", 0, 4, &D1_WITNESS, 2);
+    c.ops.insert(2, "rr 2".to_string());
+    cases.push(c);
+    for i in 0..count {
+        let (s, t, es) = match i % 3 {
+            0 => d1_shaped(rng),
+            1 => layered(rng),
+            _ => random_multi(rng),
+        };
+        let es = in_range(s, t, es);
+        if !in_domain(&es, s, t) {
+            continue;
+        }
+        let f = ref_max_flow(num_nodes(&es), &es, s, t);
+        let b: i64 = match rng.below(6) {
+            0 => f,
+            1 => f + 1,
+            2 => 0,
+            3 => f - 1,
+            _ => rng.below(f as u64 + 1) as i64,
+        };
+        if b < 0 || b > IMAX {
+            continue;
+        }
+        let mut c = bounded_case("bounded-rerun", s, t, &es, b as i32);
+        c.ops.insert(2, format!("rr {}", 2 + rng.below(3)));
         cases.push(c);
     }
 }
